@@ -29,11 +29,18 @@ def _model(I, y):
     return f0, dom, f1, f2
 
 
-def h_order1(ctx, I, r, noise_mode, seed):
+def h_order1(ctx, I, r, noise_mode, seed, int_y=False):
+    """int_y: the training values as an array of integer dtype (counts); the model terms are real all the same."""
     I = [tuple(i) for i in I]
     m, d = len(I), len(I[0])
     y = vec(ctx, 'y', m)
+    if int_y:
+        vals = [(3 * j * j + 2 * j + 1) % 7 for j in range(m)]
+        y_arg = np.array(vals, dtype=int)
+        y = np.array([ctx.const(v) for v in vals], dtype=y.dtype)
     f0, dom, f1, f2 = _model(I, y)
+    if int_y:
+        y = y_arg
     if noise_mode == 'zero':
         noise = 0.
     else:
@@ -208,6 +215,12 @@ def instances(tier):
                     continue
                 out.append({'func': 'h_order1', 'params': {'I': [list(i) for i in sets[name]], 'r': r,
                                                            'noise_mode': nm, 'seed': 5}})
+    for name in ('sparse23', 'dup'):
+        out.append({'func': 'h_order1', 'params': {'I': [list(i) for i in sets[name]], 'r': 2, 'noise_mode': 'zero', 'seed': 5,
+                                                   'int_y': True},
+                    # (all inputs are concrete integers: native float means against an exact reference would only
+                    # compare rounding; the real code is run on them directly)
+                    'opts': {'concrete_only': True}})
     for name in (['sparse23', 'dup', 'sparse3d'] if quick else ['sparse23', 'dup', 'sparse3d', 'full222']):
         out.append({'func': 'h_order2_call', 'params': {'I': [list(i) for i in sets[name]]}})
     for ns in ([[2, 2], [2, 3], [2, 2, 2]] if quick else [[2, 2], [2, 3], [2, 2, 2], [3, 3], [2, 3, 2]]):
